@@ -100,6 +100,10 @@ func settable(v reflect.Value) reflect.Value {
 // (every byte is a Gallina list element); the oracle-only runs use them freely.
 var lean bool
 
+// forced states of optional values (0 = random): pointers nil / pointer to the zero value /
+// pointer to a filled value; slices, maps and byte slices nil / empty / non-empty
+var ptrMode, contMode int
+
 func randStr(r *vh.Rand) string {
 	n := 0
 	k := r.Intn(12)
@@ -232,14 +236,32 @@ func fill(v reflect.Value, s *Schema, r *vh.Rand, depth int, goName string) {
 			v.SetString(randStr(r))
 		}
 	case "bin":
-		if r.Chance(1, 5) {
+		switch {
+		case contMode == 1 || (contMode == 0 && r.Chance(1, 5)):
 			v.Set(reflect.Zero(v.Type()))
-		} else {
-			v.SetBytes([]byte(randStr(r)))
+		case contMode == 2:
+			v.SetBytes([]byte{})
+		default:
+			b := []byte(randStr(r))
+			if contMode == 3 && len(b) == 0 {
+				b = []byte{1}
+			}
+			v.SetBytes(b)
 		}
 	case "arr":
 		n := randLen(r, depth)
-		if n == 0 && r.Bool() {
+		switch contMode {
+		case 1:
+			v.Set(reflect.Zero(v.Type()))
+			return
+		case 2:
+			n = 0
+		case 3:
+			if n == 0 {
+				n = 1
+			}
+		}
+		if n == 0 && contMode == 0 && r.Bool() {
 			v.Set(reflect.Zero(v.Type()))
 			return
 		}
@@ -250,7 +272,18 @@ func fill(v reflect.Value, s *Schema, r *vh.Rand, depth int, goName string) {
 		v.Set(sl)
 	case "map":
 		n := randLen(r, depth)
-		if n == 0 && r.Bool() {
+		switch contMode {
+		case 1:
+			v.Set(reflect.Zero(v.Type()))
+			return
+		case 2:
+			n = 0
+		case 3:
+			if n == 0 {
+				n = 1
+			}
+		}
+		if n == 0 && contMode == 0 && r.Bool() {
 			v.Set(reflect.Zero(v.Type()))
 			return
 		}
@@ -264,9 +297,17 @@ func fill(v reflect.Value, s *Schema, r *vh.Rand, depth int, goName string) {
 		}
 		v.Set(m)
 	case "ptr":
-		if (r.Chance(1, 4) || depth > 6) && goName != "elem" {
-			v.Set(reflect.Zero(v.Type()))
-			return
+		if goName != "elem" {
+			switch {
+			case ptrMode == 1, ptrMode == 0 && (r.Chance(1, 4) || depth > 6), depth > 8:
+				v.Set(reflect.Zero(v.Type()))
+				return
+			case ptrMode == 2:
+				if s.Elem.K != "ver" { // a wrapper needs an entity
+					v.Set(reflect.New(v.Type().Elem())) // pointer to the zero value
+					return
+				}
+			}
 		}
 		p := reflect.New(v.Type().Elem())
 		if goName == "elem" {
@@ -635,6 +676,10 @@ type input struct {
 	Round int64   `json:"round,omitempty"`
 	Bal   uint64  `json:"balance,omitempty"`
 	Nonce int64   `json:"nonce,omitempty"`
+	PtrMode   int  `json:"ptr_mode,omitempty"`
+	ContMode  int  `json:"cont_mode,omitempty"`
+	ViaUpdate bool `json:"via_update,omitempty"`
+	Lean      bool `json:"lean,omitempty"`
 }
 
 var entries map[string]*Entry
@@ -716,13 +761,17 @@ func main() {
 	}
 
 	// ---- enc: value -> bytes -> value -> bytes ----
+	replayLean := -1
 	doEnc := func(name string, seed uint64, toCoq bool) {
 		lean = toCoq
+		if replayLean >= 0 {
+			lean = replayLean == 1
+		}
 		e := entries[name]
 		r := vh.NewRand(seed)
 		c, v := newObj(e)
 		fill(v, e.Schema, r, 0, "")
-		in := input{Kind: "enc", Name: name, Seed: seed}
+		in := input{Kind: "enc", Name: name, Seed: seed, PtrMode: ptrMode, ContMode: contMode, Lean: lean}
 		b1, err := safeMarshal(c)
 		if err != nil {
 			rep.Violate("C08:marshal-fails", name+": MarshalMsg of a generated value failed: "+err.Error(), in)
@@ -795,7 +844,31 @@ func main() {
 	}
 
 	// ---- migrations ----
-	doMig := func(name string, seed uint64) {
+	type wrapperI interface {
+		SetEntity(entitywrapper.EntityI)
+		Entity() entitywrapper.EntityI
+		Update(entitywrapper.EntityI, func(entitywrapper.EntityI) error) error
+	}
+	// rawFields: key -> encoded bytes of the value, from the entity's own MarshalMsg
+	rawFields := func(e entitywrapper.EntityI) map[string][]byte {
+		b, err := e.MarshalMsg(nil)
+		if err != nil {
+			return nil
+		}
+		kvs, ok := splitMap(b)
+		if !ok {
+			return nil
+		}
+		m := map[string][]byte{}
+		for _, kv := range kvs {
+			k, _, err := msgp.ReadStringBytes(kv.k)
+			if err == nil {
+				m[k] = kv.v
+			}
+		}
+		return m
+	}
+	doMig := func(name string, seed uint64, pm, cm int, viaUpdate bool) {
 		lean = true
 		e := entries[name]
 		s := e.Schema
@@ -806,35 +879,65 @@ func main() {
 			r := vh.NewRand(seed + uint64(i))
 			oa, na := s.Alts[i], s.Alts[i+1]
 			old := newVersion(s, oa.Tag)
+			ptrMode, contMode = pm, cm
 			fillEntity(old, oa, r, 0)
+			ptrMode, contMode = 0, 0
 			old.InitVersion()
-			nw := newVersion(s, na.Tag)
-			in := input{Kind: "mig", Name: name, Seed: seed, Old: oa.Tag, New: na.Tag}
-			if err := nw.MigrateFrom(old); err != nil {
-				rep.Violate("C08:migration-fails", name+" "+oa.Tag+"->"+na.Tag+": "+err.Error(), in)
-				continue
+			in := input{Kind: "mig", Name: name, Seed: seed, Old: oa.Tag, New: na.Tag, PtrMode: pm, ContMode: cm, ViaUpdate: viaUpdate}
+			oldRaw := rawFields(old)
+			oldRender := render(reflect.ValueOf(old).Elem(), oa.T)
+			var nw entitywrapper.EntityI
+			if viaUpdate {
+				// the path the contracts use: Wrapper.Update(&newVersion{}, f) migrates when versions differ
+				c, _ := newObj(e)
+				w, ok := c.(wrapperI)
+				if !ok {
+					continue
+				}
+				w.SetEntity(old)
+				if err := w.Update(newVersion(s, na.Tag), func(entitywrapper.EntityI) error { return nil }); err != nil {
+					viol("C08:migration-fails", name+" "+oa.Tag+"->"+na.Tag+" (Wrapper.Update): "+err.Error(), in, 0)
+					continue
+				}
+				nw = w.Entity()
+				if nw.GetVersion() != na.Tag {
+					viol("C08:migration-version-not-set", name+" "+oa.Tag+"->"+na.Tag+" (Wrapper.Update)", in, 0)
+					continue
+				}
+			} else {
+				nw = newVersion(s, na.Tag)
+				if err := nw.MigrateFrom(old); err != nil {
+					viol("C08:migration-fails", name+" "+oa.Tag+"->"+na.Tag+": "+err.Error(), in, 0)
+					continue
+				}
 			}
-			ov, nv := reflect.ValueOf(old).Elem(), reflect.ValueOf(nw).Elem()
-			// oracle: every field present in both versions under the same key keeps its value
+			nv := reflect.ValueOf(nw).Elem()
+			newRaw := rawFields(nw)
+			// oracle: every field present in both versions under the same key and schema keeps its
+			// value, compared as encoded bytes (nil and pointer-to-zero are different values)
 			for _, nf := range na.T.Fields {
 				if nf.Key == "version" {
 					if nv.FieldByName(nf.Go).String() != na.Tag {
-						rep.Violate("C08:migration-version-not-set", name+" "+oa.Tag+"->"+na.Tag, in)
+						viol("C08:migration-version-not-set", name+" "+oa.Tag+"->"+na.Tag, in, 0)
 					}
 					continue
 				}
 				for _, of := range oa.T.Fields {
 					if of.Key == nf.Key && reflect.DeepEqual(of.T, nf.T) {
-						if render(ov.FieldByName(of.Go), of.T) != render(nv.FieldByName(nf.Go), nf.T) {
-							rep.Violate("C08:migration-loses-field", name+" "+oa.Tag+"->"+na.Tag+" field "+nf.Key, in)
+						if !bytes.Equal(oldRaw[of.Key], newRaw[nf.Key]) {
+							viol("C08:migration-loses-field", name+" "+oa.Tag+"->"+na.Tag+" field "+nf.Key+
+								fmt.Sprintf(" (%x -> %x)", oldRaw[of.Key], newRaw[nf.Key]), in, len(oldRaw[of.Key]))
 						}
 					}
 				}
 			}
 			rep.Count("migration-" + oa.Tag + "-" + na.Tag)
-			rep.Case(name+oa.Tag+fmt.Sprint(seed), true, in)
+			if viaUpdate {
+				rep.Count("migration-via-wrapper-update")
+			}
+			rep.Case(name+oa.Tag+fmt.Sprint(seed, pm, cm, viaUpdate), true, in)
 			addCase(fmt.Sprintf("McMig %s %s %s %s %s", vh.Str(name), coqBytes([]byte(oa.Tag)), coqBytes([]byte(na.Tag)),
-				render(ov, oa.T), render(nv, na.T)), in)
+				oldRender, render(nv, na.T)), in)
 		}
 	}
 
@@ -842,12 +945,18 @@ func main() {
 	if o.LoadReplay(&rin) {
 		switch rin.Kind {
 		case "enc":
+			ptrMode, contMode = rin.PtrMode, rin.ContMode
+			replayLean = 0
+			if rin.Lean {
+				replayLean = 1
+			}
 			doEnc(rin.Name, rin.Seed, true)
+			ptrMode, contMode = 0, 0
 		case "dec":
 			b, _ := hex.DecodeString(rin.Bytes)
 			runDec(rep, entries[rin.Name], b, rin, true, addCase)
 		case "mig":
-			doMig(rin.Name, rin.Seed)
+			doMig(rin.Name, rin.Seed, rin.PtrMode, rin.ContMode, rin.ViaUpdate)
 		case "state":
 			doState(rep, rin, addCase)
 		case "statedec":
@@ -865,14 +974,29 @@ func main() {
 		for k := 0; k < o.N(6, 60); k++ {
 			doEnc(name, rnd.U64(), false)
 		}
+		for m := 1; m <= 3; m++ { // every optional value nil / zero / filled
+			ptrMode, contMode = m, m
+			doEnc(name, rnd.U64(), false)
+			ptrMode, contMode = 0, 0
+		}
 		for k := 0; k < o.N(1, 4); k++ {
 			doDec(name, rnd.U64(), true)
 		}
 		for k := 0; k < o.N(4, 40); k++ {
 			doDec(name, rnd.U64(), false)
 		}
-		for k := 0; k < o.N(3, 12); k++ {
-			doMig(name, rnd.U64())
+		if entries[name].Schema.K == "ver" {
+			// every optional value in each of its states, both migration paths
+			for _, via := range []bool{false, true} {
+				for pm := 1; pm <= 3; pm++ {
+					for cm := 1; cm <= 3; cm++ {
+						doMig(name, rnd.U64(), pm, cm, via)
+					}
+				}
+				for k := 0; k < o.N(3, 12); k++ {
+					doMig(name, rnd.U64(), 0, 0, via)
+				}
+			}
 		}
 	}
 	// ---- State ----
